@@ -161,8 +161,9 @@ class Categorize(Factory, Container):
         mine = self.value if self.value is not None else next(iter(self.bins.values()), None)
         theirs = other.value if other.value is not None else next(iter(other.bins.values()), None)
         if mine is not None and theirs is not None:
-            # empty look-alikes of the two kinds of bins must be mergeable, at any depth
-            mine.zero() + theirs.zero()
+            # one bin of each kind must be mergeable, at any depth (zero() would forget the bins of nested sparse
+            # containers that only know their content through those bins)
+            mine + theirs
             return
         # a side made by ``ed`` or from JSON that is still empty only knows the name of its content type
         mine = mine.name if mine is not None else self.contentType
